@@ -415,7 +415,7 @@ def _poles_unc_stream(ctx, ssi):
 # --- default values as regenerated obligations (Generated/Defaults.lean <- harness/translate_defaults.py; stream defaults[...])
 import defaults_stream  # noqa: E402
 from common import all_pre_build as pre_build  # noqa: E402,F401,F811  (runs EVERY translate_*.py)
-LEAN_MODULES += ["PyomaVerif.Props.WiringDefaults", "PyomaVerif.Props.C01StoredDefault"]
+LEAN_MODULES += ["PyomaVerif.Props.WiringDefaultsC09", "PyomaVerif.Props.WiringDefaultsC12", "PyomaVerif.Props.C01StoredDefault"]
 THEOREMS += ["PV.C01StoredDefault.default_limits", "PV.C01StoredDefault.C01_default_covers_domain", "PV.C01StoredDefault.shapeOk_default_of_real", "PV.C01StoredDefault.C01_stored_default", "PV.WiringDefaults.C09_hc_defaults", "PV.WiringDefaults.C12_runparams_defaults"]
 
 
